@@ -146,6 +146,13 @@ func (g *gen) pl(wid, blk, hash int, lat int64) kit.Payload {
 	return kit.Payload{Wid: wid, Blk: blk, Hash: hash, Tag: g.tag, Lat: lat}
 }
 
+// lpl is a log-trigger payload: the work id stands for one log, carried in the LogTriggerExtension
+func (g *gen) lpl(wid, blk, hash int, lat int64) kit.Payload {
+	p := g.pl(wid, blk, hash, lat)
+	p.Kind, p.Log = 1, wid
+	return p
+}
+
 // n payloads with work ids from..from+n-1 on one block
 func (g *gen) fresh(from, n, blk, hash int) []kit.Payload {
 	var ps []kit.Payload
@@ -235,6 +242,43 @@ func c13Boundary(r *Rng) []c13Case {
 			{At: 1 * sec, Pls: []kit.Payload{g.pl(1, 5, 2, g.lat(1, 9))}}, // fork: miss, not refilled (same block)
 			{At: 2 * sec, Pls: []kit.Payload{g.pl(1, 5, 1, g.lat(1, 9)), g.pl(1, 5, 2, g.lat(1, 9))}},
 		}
+		allOK(g, c)
+	})
+	// log-trigger payloads (with LogTriggerExtension): the same log asked again on
+	// (same number, other hash) = re-org of the check block, (other number, same hash), (same both)
+	add("log-trigger-check-block-reorg", 4, defCexp, func(g *gen, c *c13Case) {
+		c.Calls = []c13Call{
+			{At: 0, Pls: []kit.Payload{g.lpl(1, 5, 1, g.lat(1, 9))}},
+			{At: 1 * sec, Pls: []kit.Payload{g.lpl(1, 5, 2, g.lat(1, 9))}}, // same number, other hash: must be re-checked
+			{At: 2 * sec, Pls: []kit.Payload{g.lpl(1, 5, 1, g.lat(1, 9))}}, // same both: served
+			{At: 3 * sec, Pls: []kit.Payload{g.lpl(1, 6, 1, g.lat(1, 9))}}, // other number, same hash: re-checked, refilled
+			{At: 4 * sec, Pls: []kit.Payload{g.lpl(1, 6, 1, g.lat(1, 9)), g.lpl(1, 6, 2, g.lat(1, 9)), g.lpl(1, 5, 1, g.lat(1, 9))}},
+		}
+		allOK(g, c)
+	})
+	add("log-trigger-many-reorged", 16, defCexp, func(g *gen, c *c13Case) {
+		var a, b, d []kit.Payload
+		for i := 1; i <= 25; i++ {
+			a = append(a, g.lpl(i, 5, 1, g.lat(1, 30)))
+		}
+		for i := 1; i <= 25; i++ {
+			h := 1
+			if i%3 == 0 {
+				h = 2 // a third of the logs are asked again after a re-org of block 5
+			}
+			b = append(b, g.lpl(i, 5, h, g.lat(1, 30)))
+		}
+		for i := 1; i <= 25; i++ {
+			d = append(d, g.lpl(i, 5+i%2, 1, g.lat(1, 30)))
+		}
+		c.Calls = []c13Call{{At: 0, Pls: a}, {At: 2 * sec, Pls: b}, {At: 4 * sec, Pls: d}}
+		g.scriptAll(c, func(p kit.Payload) []kit.Spec { return okSpec(p.Tag%2 == 0) })
+	})
+	add("log-and-conditional-same-call", 4, defCexp, func(g *gen, c *c13Case) {
+		mk := func(h int) []kit.Payload {
+			return []kit.Payload{g.lpl(1, 5, h, g.lat(1, 9)), g.pl(2, 5, h, g.lat(1, 9)), g.lpl(3, 5, 1, g.lat(1, 9)), g.pl(4, 5, 1, g.lat(1, 9))}
+		}
+		c.Calls = []c13Call{{At: 0, Pls: mk(1)}, {At: 1 * sec, Pls: mk(2)}, {At: 2 * sec, Pls: mk(1)}}
 		allOK(g, c)
 	})
 	add("expiry-exact", 4, 2*sec, func(g *gen, c *c13Case) {
@@ -368,7 +412,12 @@ func c13Random(r *Rng) c13Case {
 		}
 		var ps []kit.Payload
 		for i := 0; i < n; i++ {
-			ps = append(ps, g.pl(1+r.Intn(pool), 1+r.Intn(3), 1+r.Intn(2), g.lat(1, 50)))
+			w := 1 + r.Intn(pool)
+			if w%2 == 0 { // even work ids are logs (log-trigger upkeeps), odd ones conditional upkeeps
+				ps = append(ps, g.lpl(w, 1+r.Intn(3), 1+r.Intn(2), g.lat(1, 50)))
+			} else {
+				ps = append(ps, g.pl(w, 1+r.Intn(3), 1+r.Intn(2), g.lat(1, 50)))
+			}
 		}
 		c.Calls = append(c.Calls, c13Call{ID: k, At: at, Pls: ps})
 		switch r.Intn(6) {
